@@ -438,6 +438,8 @@ var sdpLines = []string{
 	"a=fmtp:96 sprop-vps=QAEMAf//AWAAAAMAkAAAAwAAAwB4mZgJ; sprop-sps=QgEBAWAAAAMAkAAAAwAAAwB4oAPAgBDllmZpJMrgEAAAAwAQAAADAeCA; sprop-pps=RAHBcrRiQA==",
 	"a=control:trackID=0", "a=control:rtsp://host/x/trackID=1", "a=mid:a", "a=mid:b", "a=mid:a-b", "a=sendonly", "a=recvonly", "a=fmtp:96 ", "a=rtpmap:96", "a=rtpmap:300 X/1",
 	"b=AS:500", "i=info", "a=framerate:25", "a=x-dimensions:1920,1080", "a=range:npt=0-", "",
+	// attributes that stop short
+	"a=key-mgmt:mikey", "a=key-mgmt:mikey ", "a=key-mgmt:", "a=key-mgmt:mikey !!!", "a=rtpmap:", "a=fmtp:", "a=control:", "a=mid:", "a=fmtp:97 config=", "a=rtpmap:97 /",
 }
 
 func genSDPText(t *rapid.T) []byte {
@@ -454,7 +456,15 @@ func genSDPText(t *rapid.T) []byte {
 		n := rapid.IntRange(1, 4).Draw(t, "nmut")
 		for i := 0; i < n && len(b) > 0; i++ {
 			p := rapid.IntRange(0, len(b)-1).Draw(t, "mpos")
-			switch rapid.IntRange(0, 3).Draw(t, "mkind") {
+			switch rapid.IntRange(0, 4).Draw(t, "mkind") {
+			case 4:
+				// cut a line short at a drawn point (an attribute that stops after its name, its protocol word, half its value)
+				lines := strings.Split(string(b), "\r\n")
+				li := rapid.IntRange(0, len(lines)-1).Draw(t, "cutline")
+				if len(lines[li]) > 2 {
+					lines[li] = lines[li][:rapid.IntRange(2, len(lines[li])-1).Draw(t, "cutat")]
+				}
+				b = []byte(strings.Join(lines, "\r\n"))
 			case 0:
 				b = append(b[:p], b[p+1:]...)
 			case 1:
@@ -488,7 +498,18 @@ func genSDPText(t *rapid.T) []byte {
 func TestC05Reverse(t *testing.T) {
 	rapid.Check(t, func(rt *rapid.T) {
 		c := ReverseCase{SDP: genSDPText(rt)}
-		accepted, _, err := runReverse(c)
+		// (a panic of the parser on the harness goroutine is a verdict like any other: it is turned into an error so that the
+		// case is saved and shrunk)
+		var accepted bool
+		err := func() (err error) {
+			defer func() {
+				if r := recover(); r != nil {
+					err = fmt.Errorf("panic while parsing the description: %v", r)
+				}
+			}()
+			accepted, _, err = runReverse(c)
+			return err
+		}()
 		labels := []string{"dir:reverse"}
 		if accepted {
 			labels = append(labels, "accepted")
